@@ -32,9 +32,9 @@ def run(ctx):
     binp = vlib.build_bin("pageops")
     d = vlib.scratch_dir()
     try:
-        runs = [("Doc35_quick.cfg", None, None, "bfs")]
+        runs = [("Doc35_quick.cfg", None, None, "bfs"), ("Doc35_std.cfg", None, None, "bfs")]
         if not ctx.quick:
-            runs.append(("Doc35_sim.cfg", "num=%d" % (1500 // po.NPROC), 14, "sim"))
+            runs.append(("Doc35_sim.cfg", "num=%d" % (12000 // po.NPROC), 14, "sim"))
         tot, nontriv, mism, ncases = {}, set(), [], 0
         for cfg, sim, depth, mode in runs:
             cases = os.path.join(d, "cases.ndjson")
@@ -61,11 +61,15 @@ def run(ctx):
                     for kk, vv in v.items():
                         dd[kk] = dd.get(kk, 0) + vv
             nontriv |= {cfg + ":" + x for x in nt}
+            if cfg == "Doc35_std.cfg":   # standard Info entries used as properties: own key space
+                for m in mm:
+                    m["key"] = "std:" + m["key"]
             mism += mm
         keys = po.report_by_key(ctx, mism, fmt)
         ev.cov(evaluations=tot.get("steps_checked", 0), distinct_nontrivial=len(nontriv), traces_validated_against_impl=ncases,
-               rule="a case is one history of Doc35.tla on a base document (without / with an Info dictionary); exhaustive part: all histories of "
-                    "<= 2 edits over the 57 actions of all families, and all histories of 3 edits within one family; thorough adds -simulate "
+               rule="a case is one history of Doc35.tla on a base document (without / with an Info dictionary); exhaustive part (Doc35_quick.cfg, plus "
+                    "Doc35_std.cfg: <= 2 property edits with Subject/Author as names): all histories of "
+                    "<= 2 edits over the 47 actions of all families, and all histories of 3 edits within one family; thorough adds -simulate "
                     "histories of 1-10 random edits over the larger alphabets. Each distinct (prefix, step) is executed once and all six listings "
                     "are compared; evaluations = steps compared; non-trivial = distinct (history prefix, step) pairs that changed the listing or "
                     "extracted attachments, and matched",
@@ -77,7 +81,7 @@ def run(ctx):
                   "its trimmed pieces, duplicates collapse, and removal matches whole trimmed keywords (tokens with empty pieces are not generated)",
                   "requests that cannot be honoured (removing something that is not there, extracting from a document without attachments) must "
                   "return an error or leave the document unchanged",
-                  "properties use non-standard Info keys only: Title/Author/Subject/Creator are stored by AddProperties but shown by `info`, not by ListProperties",
+                  "the standard Info entries Subject/Author used as property names are explored separately (Doc35_std.cfg, keys prefixed std:)",
                   "attachments: adding a name that is already attached is not generated (pdfcpu keeps both under a uniquified name); descriptions never equal "
                   "a file name (removal/extraction also match descriptions); extracted files are found under their attachment names",
                   "setting viewer preferences overlays the given entries on the existing ones; reset removes all",
